@@ -199,8 +199,7 @@ PROPS = {
         'assumed_fns': FROZEN_ASSUMED,
         'trusted': ['available_memory is an unconstrained Option<usize> / usize in every contract: what is proved holds for every value including 0',
                     'pages_allowed_ (the f64 floor of memory / page_size) and the page bookkeeping are uninterpreted: the partition and progress results do not depend on them'],
-        'not_decided': ['termination of the batching loops of insert_items_in_current_trees / incremental_index_large_descendants and of make_tree_in_file (their loop drivers are not under contract yet); what is proved is the per-pass progress of ImmutableLeafs::new (a non-empty candidate set always yields a non-empty selection) and that no candidate is lost or duplicated',
-                        'KNOWN LIMITATION observed by an independent agent on the unchanged tree: with split_after (or dimensions) >= 200 and a tiny available_memory a bucket larger than the capacity is re-queued forever (the 200-item sample fits one bucket): termination is outside what these contracts decide'],
+        'not_decided': ['termination of the batching loops of insert_items_in_current_trees / incremental_index_large_descendants and of make_tree_in_file (no decreases clause: the split heuristic is random); what is proved is the per-pass progress of ImmutableLeafs::new (a non-empty candidate set always yields a non-empty selection of at least min_items ids or everything) and that no candidate is lost or duplicated. A non-termination defect found on the way (F8: capacity >= 200 with a tiny memory hint) was repaired in /repo (known_findings.json)'],
     },
     'C15': {
         'verus': {'tree_count': ['Writer::fit_in_descendant', 'target_n_trees'], 'writer_scans': ['Writer::clear_db_and_create_a_single_leaf'],
